@@ -4,9 +4,9 @@ The center of mass is sum(I * coordinate) over the pattern axes.  Whatever the n
 structural conditions are necessary for it to be the intensity-weighted mean frequency/angle:
 
 R-SHIFT      (shared with C14, sa/rules/shift_typestate.py) the coordinate vectors handed to `_com` are ordered like
-             the array: `angular_coordinates` / `coordinates` are CENTERED iff the pattern's fftshift flag is set, and
-             `center_of_mass` / `_com` multiply array and coordinates of one layout in both unit arms and in the
-             lazy and the eager arm.
+             the array: for every (fftshift flag, units) `center_of_mass` — evaluated through `angular_coordinates` /
+             `coordinates` — multiplies self.array with coordinates of the array's own layout, in the lazy and the
+             eager arm; no shift is applied to data that is already in the target layout.
 R-COORDAXES  the k-th coordinate vector is built from axis k's own limits/metadata and length (limits[k] with
              shape[-2+k]); `_com` weights the array with x along axis -2 (x[:, None]) and with y along axis -1
              (y[None]), sums over exactly the two pattern axes and returns com_x + 1j*com_y; `center_of_mass`
@@ -22,7 +22,7 @@ from ..rules import shift_typestate as ts
 from ..rules.reductions import SumNorm
 from ..rules.shift_typestate import Spec, flag_layout
 from ..terms import FlowNormalizer, Normalizer, Poly
-from .c14 import DP, MEAS, _shift_rule_text, _stmt_of, coordinate_specs, dp_inputs, make_interp
+from .c14 import DP, MEAS, _shift_rule_text, _stmt_of, center_of_mass_spec, dp_inputs, make_interp
 
 
 def _axis_ids(expr: ast.AST, limit_names: set[str]) -> set[int]:
@@ -82,10 +82,19 @@ def _coord_axes(ctx, repo) -> None:
         limit_names |= {"self.limits", "self.angular_limits"}
         rets = [r for r in walk_no_nested(f.node) if isinstance(r, ast.Return) and r.value is not None]
         ctx.require(bool(rets), f"{f.qualname}: no return")
-        for j, r in enumerate(rets):
-            ctx.require(isinstance(r.value, ast.Tuple) and len(r.value.elts) == 2, f"{f.qualname}: does not return a pair")
+        values = []
+        for r in rets:
+            stack = [r.value]
+            while stack:
+                v = stack.pop(0)
+                if isinstance(v, ast.IfExp):
+                    stack = [v.body, v.orelse] + stack
+                else:
+                    values.append((r, v))
+        for j, (r, value) in enumerate(values):
+            ctx.require(isinstance(value, ast.Tuple) and len(value.elts) == 2, f"{f.qualname}: does not return a pair")
             node = df.cfg.node_of(r).idx
-            for k, el in enumerate(r.value.elts):
+            for k, el in enumerate(value.elts):
                 ids = set()
                 srcs = _resolve(df, node, el)
                 for s in srcs:
@@ -106,6 +115,7 @@ def _com_structure(ctx, repo) -> None:
     rets = [r for r in walk_no_nested(f.node) if isinstance(r, ast.Return) and r.value is not None]
     ctx.require(len(rets) == 1, f"{f.qualname}: single return expected")
     nz = SumNorm(df, df.cfg.node_of(rets[0]).idx)
+    nz.no_inline = {A, X, Y}  # which value of array/x/y is meant is R-SHIFT's business, not this rule's
     poly = nz.norm(rets[0].value)
     re_atoms, im_atoms = [], []
     for mono, c in poly.terms.items():
@@ -205,17 +215,15 @@ def run(ctx) -> None:
              "pair on in order in both arms and maps 'mrad'/'1/Å' to angular_coordinates/coordinates")
     ctx.undecided("_integrate_gradient_2d exactness; normalisation of the first moment by the total intensity; "
                   "floating-point value of the coordinates (LinearAxis.coordinates vs linspace between limits)")
-    it = make_interp(repo)
-    for sp in coordinate_specs(repo):
-        ts.check_spec(ctx, "R-SHIFT", it, sp)
+    # end-to-end: the coordinate properties are evaluated through (no contract), so the rule holds wherever the
+    # shift is done (inside the properties or in center_of_mass)
+    it = make_interp(repo, coordinate_contracts=())
     com = repo.method(MEAS, DP, "_com")
     A, X, Y = com.positional_params
     ts.check_spec(ctx, "R-SHIFT", it, Spec(
         com, ["centered"], lambda v: {A: flag_layout(v["centered"]), X: flag_layout(v["centered"]),
                                      Y: flag_layout(v["centered"])},
         expect=None, label="_com multiplies the array with coordinates of the array's own layout"))
-    ts.check_spec(ctx, "R-SHIFT", it, Spec(
-        repo.method(MEAS, DP, "center_of_mass"), ["self.fftshift"], dp_inputs, expect=None,
-        label="center_of_mass pairs self.array with coordinates in the array's layout (both unit arms, lazy and eager)"))
+    ts.check_spec(ctx, "R-SHIFT", it, center_of_mass_spec(repo))
     _coord_axes(ctx, repo)
     _com_structure(ctx, repo)
